@@ -67,7 +67,18 @@ fn encryptor_differential(ctx: &Ctx) {
             3 => Sched::list(vec![65536, 1, 65535, 2], 65536),
             _ => Sched::random(&mut rng, 200, if len > 20000 { 9000 } else { 9 }),
         };
-        let io = Io::new(rs, Sched::random(&mut rng, 8, 70000));
+        // the SINK varies too: generous, one byte at a time, fewer than a chunk header (16) per call, fixed segments that
+        // chunk headers straddle, tiny random pieces; natively vectored (write_vectored with short counts) every other case
+        let ws = match i % 7 {
+            0 | 1 => Sched::random(&mut rng, 8, 70000),
+            2 => Sched::fixed(1),
+            3 => Sched::fixed(rng.range(2, 15)),
+            4 => Sched::fixed(*rng.pick(&[16usize, 17, 40, 140, 4096, 65708])),
+            5 => Sched::random(&mut rng, 64, 40),
+            _ => Sched::list(vec![4, 32, 15, 1, 16, 7, 65536, 3], 33),
+        };
+        let mut io = Io::new(rs, ws);
+        io.vectored = i % 2 == 1;
         ctx.eval();
         if i % 3 != 0 {
             let k = fresh_keys(&mut rng);
